@@ -38,7 +38,25 @@ MUTATORS = {
     'game::Game::resign': ('Resign', True),
     'game::Game::declare_draw': ('DeclareDraw', False),
 }
-RESULT_SOME = call('core::option::Option::<T>::is_some', call('game::Game::result', ('param', 1)))
+RESULT = call('game::Game::result', ('param', 1))
+RESULT_SOME = call('core::option::Option::<T>::is_some', RESULT)
+RESULT_NONE = call('core::option::Option::<T>::is_none', RESULT)
+
+
+def game_open(c, vals):
+    """does taking the switch outcome `vals` (list of case values) on condition c establish that result() is None?"""
+    if c is None:
+        return False
+    c = norm(c)
+    falsey = list(vals) == [0]
+    truthy = 0 not in vals and len(vals) >= 1
+    if match(RESULT_SOME, c) is not None:
+        return falsey
+    if match(RESULT_NONE, c) is not None:
+        return truthy
+    if match(('discr', RESULT), c) is not None:       # match self.result() { None => .. }   (None = 0)
+        return falsey
+    return False
 CAN = call('game::Game::can_declare_draw', ('param', 1))
 
 
@@ -97,7 +115,7 @@ def r12(ctx):
                 npush_paths += 1
                 guarded = False
                 for c, v, allv in conds:
-                    if match(RESULT_SOME, c) is not None and v == 0:
+                    if game_open(c, [v]):
                         guarded = True
                     if key == 'game::Game::declare_draw' and match(CAN, c) is not None and v == 'otherwise':
                         guarded = True
@@ -132,7 +150,7 @@ def r12(ctx):
             if st.get('local') and st['target'] == ('ref', ('l', 0), ()) and norm(st['value']) == ('int', 1, 'bool'):
                 trues += 1
                 gs = guards(s, st['blk'])
-                if not any(g['cond'] is not None and match(RESULT_SOME, norm(g['cond'])) is not None and truth(g) is False for g in gs):
+                if not any(game_open(g['cond'], g['vals']) for g in gs):
                     bad += 1
         if trues == 0:
             ctx.inconclusive('C10.R1', 'can_declare_draw: no `return true` found')
